@@ -26,15 +26,17 @@ def plan(tier, seed):
         jobs += [dict(N=n, kinds=2, via='source', eems=True) for n in (1, 2)]
         jobs += [dict(N=3, family=f, via='source', eems=True) for f in ('ring', 'ring+tail', 'ring+island', 'self+chain')]
     else:
-        jobs += [dict(N=n, kinds=2, via='source', eems=True) for n in (1, 2, 3)]
-        jobs += [dict(N=4, family=f, via='source', eems=True) for f in ('ring', 'ring+tail', 'ring+island', 'self+chain')]
+        jobs += [dict(N=n, kinds=2, via='source', eems=True) for n in (1, 2)]
+        jobs += [dict(N=3, family=f, via='source', eems=True) for f in ('ring', 'ring+tail', 'ring+island', 'self+chain')]
+        # 4 built-in commands: one job per command chosen for the first node (pinned), the other three are free
+        jobs += [dict(N=4, family=f, via='source', eems=True, pin={'cmd0': c0}) for f in ('ring', 'ring+tail') for c0 in range(len(UNARY))]
         jobs += [dict(N=n, kinds=4, via=v) for n in (1, 2) for v in ('api', 'source')]
         for first in range(4):
             jobs.append(dict(N=3, kinds=4, via='api', fix01=first))
         jobs.append(dict(N=3, kinds=3, via='source'))
         for first in range(2):
             jobs.append(dict(N=4, kinds=2, via='api', fix01=first))
-        jobs.append(dict(N=4, kinds=3, via='api', max_edges=5))
+        jobs += [dict(N=4, kinds=3, via='api', max_edges=4, fix01=f) for f in range(3)]
         jobs += [dict(N=n, family=f, via=v, listy=l) for n in (3, 4, 5) for f in ('ring', 'ring+tail', 'ring+island', 'self+chain')
                  for v in ('api', 'source') for l in (False, True)]
     return jobs
@@ -270,7 +272,7 @@ def describe(tier):
                      'built through add_command and from_source; N=4,5: the structured families ring, ring+tail (tail consuming or consumed), ring+separate acyclic component, self-loop+chain with solver-chosen orientation and reference kinds; '
                      'the same over BUILT-IN commands (Copy, Sum, Mean, Multiply, AMinusB, Maximum, WeightedSum / WeightedMean with weights from {0, 1, 0.5}; which command carries each reference is solver-chosen): all cyclic graphs on N<=2, the families on N=3; '
                      'every rejected model is run a second time on the same Program object',
-            'thorough': 'built-in commands: all cyclic graphs on N<=3, families on N=4; N=3 all kinds exhaustively, N=4 direct exhaustively, N=4 lists <=5 edges, families on N=3..5 through both construction paths incl. list / nested-list edges',
+            'thorough': 'built-in commands: all cyclic graphs on N<=2, the families on N=3, ring and ring+tail on N=4 (8 pinned slices each); N=3 all kinds exhaustively, N=4 direct exhaustively, N=4 lists <=4 edges, families on N=3..5 through both construction paths incl. list / nested-list edges',
         },
         'outside': ['graphs on more than 5 commands', 'user commands that never read one of their inputs (detection is dynamic: a reference that is never followed is never seen)', 'N>=4 beyond direct references and the listed families'],
         'assumptions': ['graph structure = z3 integer variables constrained by "some command reaches itself" (transitive-closure Booleans); the explorer follows exactly the satisfiable assignments',
